@@ -144,8 +144,13 @@ SoftRemove(u, item, names) ==
 
 \* text-level cases (C09 / C16): the judge lexes and parses the bytes itself.  A sentence is judged like a tree case;
 \* a non-sentence must be an error when e.strict (enumerated token strings), and must merely not crash otherwise
+\* bytes that no token of the expression language contains: whatever else is uncertain, a string with one of them is
+\* not a sentence and must be rejected (so such strings are judged strictly even among the random ones)
+AlienByte(c) == ~(IsWord(c) \/ IsWS(c) \/ c \in {35, 58, 46, 44, 40, 41, 91, 93, 60, 62, 61, 43, 45})
+HasAlien(bytes) == \E i \in DOMAIN bytes : AlienByte(bytes[i])
 TextFails(e) ==
   LET ts == Lex(e.text)
+      strict == e.strict \/ HasAlien(e.text)
       cond == e.op = "MatchText"
       pr == IF cond THEN ParseCond(ts) ELSE ParseUpdate(ts)
       usedN == IF ~pr.ok THEN {} ELSE IF cond THEN CondNames(pr.ast) ELSE UpdNames(pr.ast)
@@ -160,10 +165,10 @@ TextFails(e) ==
               direct == ch = "lang"
               isErr == out.o = "E" \/ (out.o = "panic_syntax" /\ ~direct)
           IN IF out.o \in {"crash", "timeout"} \/ (out.o = "panic_syntax" /\ direct) THEN { ch \o ".NoCrash" }
-             ELSE IF ~pr.ok THEN (IF e.strict /\ ~isErr THEN { ch \o ".Accepted" } ELSE {})
-             ELSE IF ~placeholdersOK /\ ~direct THEN (IF e.strict /\ ~isErr THEN { ch \o ".Placeholders" } ELSE {})
+             ELSE IF ~pr.ok THEN (IF strict /\ ~isErr THEN { ch \o ".Accepted" } ELSE {})
+             ELSE IF ~placeholdersOK /\ ~direct THEN (IF strict /\ ~isErr THEN { ch \o ".Placeholders" } ELSE {})
              ELSE IF fnAsAttr THEN {}
-             ELSE IF reservedUse THEN (IF e.strict /\ ~isErr THEN { ch \o ".Reserved" } ELSE {})
+             ELSE IF reservedUse THEN (IF strict /\ ~isErr THEN { ch \o ".Reserved" } ELSE {})
              ELSE IF oddCase /\ isErr THEN {}
              ELSE IF ~cond /\ pr.rep /\ isErr THEN {}     \* repeated clause keyword: rejected, or applied as if merged (D.3)
              ELSE IF cond
